@@ -503,6 +503,8 @@ func runScenario(p params, res *result) {
 		}
 		waitDone(cl, 60*time.Second)
 		res.add("c.cause", quic.VerifCanonErr(cl.cause))
+		// a silently abandoned server connection lives until its own idle timeout (at most 30 s)
+		time.Sleep(45 * time.Second)
 		finish()
 		return
 	}
